@@ -791,6 +791,81 @@ def run(tier="quick", mktable=False):
                       "mirrors the live set (state at the exit: %s)" % (fn.name, bad9[2] if bad9 else "", " & ".join(sorted("%r>=0" % c for c in (bad9[1] if bad9 else [])))[:200]),
                proof="every exit after a successful lookup has moved cnt - slot records from slot+1 to slot, or has cnt - slot <= 0")
     chk.count("slot_removal_functions", n9, floor=1)
+    # T10 the record list has no capacity of its own (the record set is a count and a pointer), so its size IS its count: a
+    # function that raises the count resizes the list to the new count before it uses the list - on every path.  Growing in
+    # blocks on some paths only, while the removal shrinks to the exact count, leaves the add writing one record past the end
+    # after any removal above the block size.
+    chk.rule("T10", "after raising the count, the record list is resized to the count on every path before it is used")
+    n10 = 0
+
+    class CapPos(GhostPos):
+        """cnt: the record count; cap: the number of records the list was last sized to (a ghost: set by realloc of ->ptrs)"""
+        def lin(self, e):
+            s_ = X.strip(e)
+            if s_ is not None and s_.get("k") == "member" and s_.get("n") == "cnt":
+                return Lin.sym("cnt")
+            if s_ is not None and s_.get("k") == "bin" and s_.get("op") == "*":
+                for x_, y_ in ((s_["ch"][0], s_["ch"][1]), (s_["ch"][1], s_["ch"][0])):
+                    if X.strip(x_).get("k") == "sizeof" or (X.const_val(x_) is not None and X.const_val(x_) >= 16):
+                        return self.lin(y_)
+            return GhostPos.lin(self, e)
+
+        def transfer(self, cons, x, blk=None):
+            if x.get("k") in ("un", "assign") and x.get("ch"):
+                t_ = X.strip(x["ch"][0])
+                if t_ is not None and t_.get("k") == "member" and t_.get("n") == "cnt":
+                    cons = self.assign_sym(cons, "touched", Lin.const(1))
+                    if x.get("k") == "un" and x.get("op") in ("++", "--"):
+                        return self.assign_sym(cons, "cnt", Lin.sym("cnt") + (1 if x["op"] == "++" else -1))
+                    r_ = self.lin(x["ch"][1]) if x.get("k") == "assign" else None
+                    if x.get("op") in ("+=", "-=") and r_ is not None:
+                        return self.assign_sym(cons, "cnt", Lin.sym("cnt") + r_ if x["op"] == "+=" else Lin.sym("cnt") - r_)
+                    return self.assign_sym(cons, "cnt", r_ if x.get("op") == "=" else None)
+            if x.get("k") == "call" and X.callee_name(x) in ("realloc", "spifmem_realloc") and len(x["ch"]) >= 3 and any(
+                    y.get("k") == "member" and y.get("n") == "ptrs" for y in walk(x["ch"][-2])):
+                return self.assign_sym(cons, "cap", self.lin(x["ch"][-1]))
+            return GhostPos.transfer(self, cons, x, blk)
+    for fn in u.functions.values():
+        if fn.body is None or fn.cfg is None or not fn.params:
+            continue
+        touches = [x for x in walk(fn.body) if x.get("k") in ("un", "assign") and x.get("ch") and (X.strip(x["ch"][0]) or {}).get("k") == "member"
+                   and X.strip(x["ch"][0]).get("n") == "cnt" and (x.get("k") == "assign" or x.get("op") in ("++", "--"))]
+        stores_rec = any(x.get("k") == "assign" and (X.strip(x["ch"][0]) or {}).get("k") == "member" and X.strip(x["ch"][0]).get("n") in ("ptr", "size", "line")
+                         for x in walk(fn.body))
+        if not touches or not stores_rec or not any(x.get("op") in ("++", "+=", "=") for x in touches) or any(x.get("op") in ("--", "-=") for x in touches):
+            continue
+        rec_ = prog.records.get((X.strip(touches[0]["ch"][0]).get("rec") or ""))
+        extra_int = [fl["n"] for fl in (rec_ or {}).get("fields", []) if fl["n"] not in ("cnt", "ptrs") and not fl.get("tp") and fl.get("tw")]
+        if extra_int:
+            chk.note("T10: the record set has further integer fields (%s): a capacity kept separately is not decided here" % ", ".join(extra_int))
+            continue
+        g10 = CapPos(fn, prog, self_index=None)
+        # on entry the list holds at least its records (the invariant every exit of add / rem re-establishes; rem leaves it exact)
+        g10.run([Lin.sym("cnt"), Lin.sym("cap") - Lin.sym("cnt"), Lin.sym("touched"), Lin.const(0) - Lin.sym("touched")])
+        bad10 = []
+
+        def v10(st, x, blk, fn=fn, bad10=bad10):
+            if x.get("k") != "member" or x.get("n") != "ptrs":
+                return
+            par = fn.parent.get(x["i"])
+            while par is not None and par.get("k") in ("paren", "icast", "cast"):
+                par = fn.parent.get(par["i"])
+            if par is not None and par.get("k") == "call" and X.callee_name(par) in ("realloc", "spifmem_realloc"):
+                return
+            if par is not None and par.get("k") == "assign" and par.get("op") == "=" and X.strip(par["ch"][0]) is x:
+                return
+            if not feasible(list(st)) or entails(list(st), Lin.const(0) - Lin.sym("touched")):
+                return
+            if not entails(list(st), Lin.sym("cap") - Lin.sym("cnt")):
+                bad10.append((x, st))
+        g10.visit(v10)
+        n10 += 1
+        chk.ob("T10", fn.name, "list-sized-to-count", not bad10, loc=fn.loc(bad10[0][0]) if bad10 else fn.loc(touches[0]),
+               detail="%s raises the record count and then uses the list on a path on which the list is not known to hold that many "
+                      "records (state: %s): the record set keeps no capacity and the removal shrinks the list to the exact count, so the "
+                      "slot at cnt - 1 can lie past the end of the list" % (fn.name, " & ".join(sorted("%r>=0" % c for c in (bad10[0][1] if bad10 else [])))[:160]),
+               proof="wherever the list is used after the count was raised, the size it was last given is at least the count")
+    chk.count("count_raising_functions", n10, floor=1)
     # T8
     nb = 0
     # every bounded copy into a record's `file` field, wherever mem.c does it (the two edit primitives today; a shared helper
